@@ -284,7 +284,8 @@ class Translator:
         if s.opts.get('hb'): L.append("  vp_hb_fork();")
         def ctx(t, budget_expr):
             tn = threads[t][0]
-            return (f"  if (!{tn}_done) {{ vp_cur = {t + 1}; vp_blk_kind[{t + 1}] = VP_B_NONE; {tn}_budget = {budget_expr}; thr_{tn}(); }}")
+            drawn = 1 if budget_expr == 'b' else 0
+            return (f"  if (!{tn}_done) {{ vp_cur = {t + 1}; vp_blk_kind[{t + 1}] = VP_B_NONE; {tn}_budget = {budget_expr}; VP_CTX_BEGIN({t + 1}); thr_{tn}(); VP_CTX_END({t + 1}, \"{tn}\", {tn}_done, {drawn}); }} else {{ VP_CTX_SKIP({t + 1}, {drawn}); }}")
         for r in range(R):
             for t in order:
                 L.append(f"  {{ unsigned b = VP_BUDGET({maxb}); ")
